@@ -142,7 +142,8 @@ fn run_job(cx: &Ctx, j: &Job) -> Option<String> {
         let (_, ks, _, st) = &ders[src];
         let Some(st) = st.clone() else { continue };
         let ks = *ks;
-        for k in (ks + 1)..lists.len() {
+        // ... and to every EARLIER list (a holder may take a state back to an older list)
+        for k in (first_after..lists.len()).filter(|k| *k != ks) {
             let r = std::panic::catch_unwind(std::panic::AssertUnwindSafe(|| prover::create_or_update_revocation_state(&tails, &reg.def, &lists[k], j.idx, Some(&st), Some(&lists[ks])))).ok().and_then(|r| r.ok());
             ders.push(("inc", k, Some(src), r));
         }
